@@ -1,4 +1,5 @@
 """Live executions of script-driven host programs under the real agent, recorded for Trace_Dispatch."""
+import os
 import sys
 import threading
 
@@ -102,8 +103,10 @@ def tp_args(tp):
     elif tp['span'] != 'none':
         args['span'] = tp['span']
         args['snapshot'] = 'no_collect'
-    if tp['kind'] == 'method':
+    if tp['kind'] == 'method' and tp['name']:
         args['method_name'] = tp['name']
+    # (a method tracepoint WITHOUT a name - span=method only - never acts: its location looks the function up in the
+    #  source of the frame, which can fail; that must stay its own problem)
     return args
 
 
@@ -145,6 +148,12 @@ class Scenario:
         self.rig.install_via_service(real)
         for m, rt in zip(self.reg_model, self.reg_real):
             self.reg_ids[self.rig.register(rt)] = m['id']
+        if any(tp.get('hide_source') for tp in tps):
+            # the source of the files cannot be loaded any more (generated code, .pyc only, a zipped application)
+            import linecache
+            for pth in self.host.paths.values():
+                os.rename(pth, pth + '.gone')
+            linecache.clearcache()
         self.lock = threading.Lock()
         self.seq = 0
         self.records = []
